@@ -92,16 +92,16 @@ func c37Universe(thorough bool) []c37Spec {
 		{"C", "B", 0, c37BTS - 1, c37MinStep, 10, "unfunded sender: needs the fee"},
 		{"B", "A", 9000, c37BTS, c37MinStep, 11, "credits A"},
 		{"B", "A", 5000, c37BTS + c37Th, c37MinStep, 12, "credits A, latest timestamp"},
+		{"A", "A", 5000, c37BTS, c37MinStep, 13, "self transfer with value (net effect: only the fee)"},
 	}
 	if thorough {
 		u = append(u,
-			c37Spec{"A", "B", 5000, c37BTS + 1, c37MinStep, 13, "half to B"},
-			c37Spec{"B", "C", 5000, c37BTS - c37Th + 1, c37MinStep, 14, "B credits C"},
-			c37Spec{"C", "A", 5000, c37BTS, c37MinStep, 15, "unfunded sender: needs two credits"},
-			c37Spec{"A", "C", 1, c37BTS - c37Th, c37MinStep, 16, "expired with value"},
-			c37Spec{"B", "A", 10000, c37BTS, c37MinStep, 17, "B value=balance"},
-			c37Spec{"C", "B", 0, c37BTS + c37Th + 1, c37MinStep, 18, "future, unfunded"},
-			c37Spec{"A", "A", 5000, c37BTS, c37MinStep, 19, "self transfer"},
+			c37Spec{"A", "B", 5000, c37BTS + 1, c37MinStep, 14, "half to B"},
+			c37Spec{"B", "C", 5000, c37BTS - c37Th + 1, c37MinStep, 15, "B credits C"},
+			c37Spec{"C", "A", 5000, c37BTS, c37MinStep, 16, "unfunded sender: needs two credits"},
+			c37Spec{"A", "C", 1, c37BTS - c37Th, c37MinStep, 17, "expired with value"},
+			c37Spec{"B", "A", 10000, c37BTS, c37MinStep, 18, "B value=balance"},
+			c37Spec{"C", "B", 0, c37BTS + c37Th + 1, c37MinStep, 19, "future, unfunded"},
 		)
 	}
 	return u
@@ -497,7 +497,7 @@ func c37Distinct(seq []int) []int {
 func TestVerifC37(t *testing.T) {
 	r := ev.Start(t, "C37", "exploration")
 	r.Rule("every insertion sequence (with repetition) of length 1..L over a fixed universe of real signed v3 transactions " +
-		"(3 senders incl. an unfunded one, values {0, half, balance-fee, balance}, timestamps {bts-th, bts-th+1, bts-1, bts, bts+1, bts+th, bts+th+1}, stepLimit {min-1, min}) " +
+		"(3 senders incl. an unfunded one, recipients incl. the sender itself (self transfer with value, both tiers), values {0, half, balance-fee, balance}, timestamps {bts-th, bts-th+1, bts-1, bts, bts+1, bts+th, bts+th+1}, stepLimit {min-1, min}) " +
 		"x pre-committed subset {none, each single distinct tx, all} x limits {none, maxCount 1, maxCount 2, maxBytes = first tx, first tx+1, first two} x direct {true,false} (length-4 sequences: committed {none, all}, limits {none, maxCount 2}); " +
 		"each case: Candidate, validate as a block, commit the selection elsewhere, Candidate again; non-trivial = distinct case")
 	r.Assume("the pool holds only signature-verified transactions of the right network (that is what TransactionManager.Add guarantees)",
